@@ -628,16 +628,38 @@ def merge_bams_replay(inputs, clause):
             pysam.index(p)
             paths.append(p)
         out = os.path.join(d, 'merged.bam')
+        # the failing steps of the counter-model (an index or merge step that raises), realised on the real pysam module
+        faults = [x for x in (((inputs.get('ghost') or {}).get('GHOST') or {}).get('faults') or []) if x in ('index', 'merge')]
+        real = {'index': pysam.index, 'merge': pysam.merge}
+
+        def boom(*a, **k):
+            raise OSError('injected failure')
+        for x in faults:
+            setattr(pysam, x, boom)
         try:
-            fn(paths, out, 1)
-            with pysam.AlignmentFile(out) as f:
-                got = sorted(r.query_name for r in f.fetch(until_eof=True))
-            obs = {'outcome': 'return', 'value': got, 'expected': sorted(names), 'parts': contents}
-            ok = got == sorted(names) and os.path.exists(out + '.bai')
-        except Exception as e:      # noqa: BLE001
-            obs = {'outcome': 'raise', 'value': [type(e).__name__, str(e)[:200]], 'parts': contents}
-            ok = False
-        if not ok:
+            try:
+                fn(paths, out, 1)
+                returned = True
+                err = None
+            except Exception as e:      # noqa: BLE001
+                returned, err = False, '%s: %s' % (type(e).__name__, str(e)[:200])
+        finally:
+            for x in faults:
+                setattr(pysam, x, real[x])
+        got = None
+        if os.path.exists(out):
+            try:
+                with pysam.AlignmentFile(out) as f:
+                    got = sorted(r.query_name for r in f.fetch(until_eof=True))
+            except Exception:      # noqa: BLE001
+                got = 'unreadable'
+        complete = got == sorted(names) and os.path.exists(out + '.bai')
+        obs = {'outcome': 'return' if returned else 'raise', 'value': {'returned_normally': returned, 'error': err, 'records': got,
+                                                                       'index_exists': os.path.exists(out + '.bai'),
+                                                                       'injected_failures': faults},
+               'expected': sorted(names), 'parts': contents}
+        # it may return normally only with a complete merged and indexed output; without injected failure it must do so
+        if (returned and not complete) or (not faults and not returned):
             return {'status': 'confirmed', 'observed': obs, 'failed': [{'clause': clause}]}
         return {'status': 'not-reproduced', 'observed': obs}
     finally:
